@@ -344,22 +344,22 @@ pub fn plan_for(id: u32) -> Plan {
   use Family::*;
   match id {
     1 | 2 | 19 => Plan {
-      families: vec![(General, true, 35), (Tagged, true, 20), (AbsorbingDense, true, 25), (RepeatDense, true, 20)],
-      sweep_families: vec![(General, true), (Tagged, true), (AbsorbingDense, true), (RepeatDense, true)],
+      families: vec![(General, true, 30), (Tagged, true, 17), (AbsorbingDense, true, 22), (RepeatDense, true, 17), (ModDense, false, 14)],
+      sweep_families: vec![(General, true), (Tagged, true), (AbsorbingDense, true), (RepeatDense, true), (ModDense, false)],
       catalogue_filter_nonabs: false,
       needs_absorbing: false,
       needs_norepeat: false,
     },
     3 | 4 => Plan {
-      families: vec![(Tagged, false, 60), (General, false, 20), (RepeatDense, false, 20)],
-      sweep_families: vec![(Tagged, false), (RepeatDense, false), (General, false)],
+      families: vec![(Tagged, false, 45), (General, false, 15), (RepeatDense, false, 15), (ModDense, false, 25)],
+      sweep_families: vec![(Tagged, false), (RepeatDense, false), (General, false), (ModDense, false), (ModDense, false)],
       catalogue_filter_nonabs: true,
       needs_absorbing: false,
       needs_norepeat: false,
     },
     5 => Plan {
-      families: vec![(General, true, 30), (Tagged, false, 30), (RepeatDense, false, 20), (AbsorbingDense, true, 20)],
-      sweep_families: vec![(General, false), (Tagged, false), (RepeatDense, true), (General, true)],
+      families: vec![(General, true, 25), (Tagged, false, 25), (RepeatDense, false, 17), (AbsorbingDense, true, 17), (ModDense, false, 16)],
+      sweep_families: vec![(General, false), (Tagged, false), (RepeatDense, true), (General, true), (ModDense, false)],
       catalogue_filter_nonabs: false,
       needs_absorbing: false,
       needs_norepeat: false,
@@ -395,7 +395,7 @@ pub fn gen_random_case(src: &mut Src, plan: &Plan, hist: &HistOpts) -> Option<Ma
   let (fam, allow_abs, _) = plan.families[fi];
   let opts = LayoutOpts { allow_absorbing: allow_abs, max_alphabet: 8 };
   // scale diversity: now and then a wide layout and / or a crowd of held keys
-  let fam = if src.chance(if hist.marathon_taps > 0 { 60 } else { 4 }) { Family::Wide } else { fam };
+  let fam = if hist.marathon_taps > 0 && src.chance(15) { Family::Huge } else if src.chance(if hist.marathon_taps > 0 { 60 } else { 4 }) { Family::Wide } else { fam };
   let mut g = loaded(gen_family(src, fam, &opts))?;
   let crowd = if hist.marathon_taps == 0 && src.chance(4) { add_crowd(src, &mut g) } else { vec![] };
   let steps = gen_history_mixed(src, &g.layout, &g.alphabet, hist, &crowd);
